@@ -252,4 +252,37 @@ example : retarget [65,67,71,84] [65,67,71,84,78] [0,1,2,3] = some [0,1,2,3] := 
 example : retarget [65,67,71,84] [65,67,84,71] [0,1,2] = none := by decide
 example : changeEncoding [65,67,71,84] [65,67,84,71] [0,1,2] = some [0,1,3] := by decide
 
+
+/-! ### numeric encodings by offset -/
+
+/-- **C06.offset_roundtrip** — `decode (encode b) = b` for every byte and every `min_code`: an offset encoding
+never changes the text (uint8 arithmetic wraps, and wraps back) -/
+theorem offset_roundtrip (m b : Nat) (hb : b < 256) : offsetDecode m (offsetEncode m b) = b := by
+  unfold offsetDecode offsetEncode; omega
+
+/-- on and above `min_code` the code is the plain difference (the quality / digit value) -/
+theorem offset_value (m b : Nat) (hm : m ≤ b) (hb : b < 256) : offsetEncode m b = b - m := by
+  unfold offsetEncode; omega
+
+theorem offset_injective (m b b' : Nat) (hb : b < 256) (hb' : b' < 256) (h : offsetEncode m b = offsetEncode m b') : b = b' := by
+  unfold offsetEncode at h; omega
+
+/-- the three predefined offset encodings of the package (tables re-extracted from /repo on every run) are
+exactly `b ↦ b − min_code (mod 256)` and its inverse, with the documented `min_code`s `'0'`, `'!'`, NUL -/
+theorem gen_offset_tables_ok : Gen.C06.offsets.all (fun p => offsetTableOK p.2) = true := by decide +kernel
+
+theorem gen_offset_min_codes : Gen.C06.offsets.map (fun p => (p.1, p.2.minCode)) =
+    [("NumDigitEncoding", 48), ("QualityEncoding", 33), ("CigarEncoding", 0)] := by decide +kernel
+
+/-- every predefined offset encoding, every byte: the package's decode of its encode is the byte itself -/
+theorem predefined_offset (n : String) (E : OffsetEnc) (hE : (n, E) ∈ Gen.C06.offsets) (b : Nat) (hb : b < 256) :
+    E.encT[b]? = some (offsetEncode E.minCode b) ∧ E.decT[offsetEncode E.minCode b]? = some b := by
+  have h := (List.all_eq_true.mp gen_offset_tables_ok) (n, E) hE
+  simp only [offsetTableOK, Bool.and_eq_true, decide_eq_true_eq, beq_iff_eq] at h
+  obtain ⟨⟨_, he⟩, hd⟩ := h
+  have hlt : offsetEncode E.minCode b < 256 := by unfold offsetEncode; omega
+  constructor
+  · rw [he]; simp [hb]
+  · rw [hd]; simp [hlt, offset_roundtrip E.minCode b hb]
+
 end C06
